@@ -54,7 +54,7 @@ CLAIMED.update({
 })
 CLAIMED.update({
  "C11": {"cat": "other", "text": "Proved: FileManager.add_named_file copies the given file into the name's home once and registers it once, under the given name, with the fingerprint and path _fingerprint returned for the copied bytes; FileRegistrar.register_complete distributes exactly one manifest entry per change of the CURRENT version (bytes or source file name) and none for a repeat, comparing with the last entry only. Bounded: operation sequences {add, mutate source, remove, new instance} on the real FileManager against the abstract view name -> versions the property gives (content addressing, immutability of every registered version, fresh-instance agreement).",
-         "note": "_copy_in / _fingerprint (shutil, os.rename, hashlib) are covered only by the bounded sequences; no '#mark' / s3 paths.",
+         "note": "_copy_in[local_file] is proved to make exactly one shutil.copy of the source into the name's home (effect log); _fingerprint (hashlib, os.rename) is covered only by the bounded sequences (one of the two source files has no extension); no '#mark' / s3 paths.",
          "tech": BT},
  "C12": {"cat": "other", "text": "Proved (unbounded member lists, loop invariants over array-encoded lists): _find_one / _get_from / _get_to select exactly the member, the suffix and the prefix at the first matching identity; get_identified_paths_in pairs every member in stored order with the identity of its own comment (fresh holder per member); CsvPath.identity's precedence id>Id>ID>name>Name>NAME; PathsRegistrar.metadata_update writes one manifest entry carrying the fingerprint per change of the last fingerprint and none for an identical re-add (effect log for json.dump). Bounded: add / re-add / replace / remove / new-instance sequences and round trips on the real PathsManager.",
          "note": "The split/join round trip of the stored group file (_str_from_list/_get_named_paths) and the comment scanner are covered by the bounded runs only.",
